@@ -21,6 +21,15 @@ pub fn addrs(full: bool) -> Vec<Addr> {
             Addr::V4([192, 0, 2, 1], 1),
             Addr::V6([0; 16], 0),
             Addr::V6([0xff; 16], 65535),
+            // IPv6 forms with an embedded IPv4 address / special prefixes (never to be rewritten as IPv4)
+            Addr::V6([0, 0, 0, 0, 0, 0, 0, 0, 0, 0, 0xff, 0xff, 192, 0, 2, 1], 32853), // ::ffff:192.0.2.1 (IPv4-mapped)
+            Addr::V6([0, 0, 0, 0, 0, 0, 0, 0, 0, 0, 0, 0, 192, 0, 2, 1], 32853),       // ::192.0.2.1 (IPv4-compatible)
+            Addr::V6([0, 0x64, 0xff, 0x9b, 0, 0, 0, 0, 0, 0, 0, 0, 192, 0, 2, 1], 443), // 64:ff9b::192.0.2.1 (NAT64)
+            Addr::V6([0, 0, 0, 0, 0, 0, 0, 0, 0, 0, 0, 0, 0, 0, 0, 1], 3478),           // ::1
+            Addr::V6([0xff, 2, 0, 0, 0, 0, 0, 0, 0, 0, 0, 0, 0, 0, 0, 1], 3478),        // ff02::1
+            Addr::V6([0x20, 2, 192, 0, 2, 1, 0, 0, 0, 0, 0, 0, 0, 0, 0, 0], 3478),      // 2002:c000:0201:: (6to4)
+            Addr::V4([127, 0, 0, 1], 3478),
+            Addr::V4([224, 0, 0, 1], 3478),
         ]
     } else {
         vec![Addr::V4([192, 0, 2, 1], 0x2112), Addr::V6(v6doc, 32853)]
@@ -318,6 +327,22 @@ impl KeySpec {
     }
 }
 
+/// A deterministic ASCII password of `n` bytes (leaked once per (n, alt)); `alt` differs from it in the last character only.
+pub fn long_pass(n: usize, alt: bool) -> &'static str {
+    use std::collections::HashMap;
+    use std::sync::{Mutex, OnceLock};
+    static CACHE: OnceLock<Mutex<HashMap<(usize, bool), &'static str>>> = OnceLock::new();
+    let mut c = CACHE.get_or_init(|| Mutex::new(HashMap::new())).lock().unwrap();
+    *c.entry((n, alt)).or_insert_with(|| {
+        let mut s: String = (0..n).map(|i| (b'a' + ((i * 7 + n) % 26) as u8) as char).collect();
+        if alt {
+            s.pop();
+            s.push('#');
+        }
+        Box::leak(s.into_boxed_str())
+    })
+}
+
 pub fn key_menu(full: bool) -> Vec<KeySpec> {
     let mut v = vec![
         KeySpec::Short("VOkJxbRl1RmTxUk/WvJxBt"),
@@ -335,6 +360,13 @@ pub fn key_menu(full: bool) -> Vec<KeySpec> {
             sha256: false,
         });
         v.push(KeySpec::Long { user: "a", realm: "b", pass: "c", sha256: true });
+        // passwords around the 64-byte hash block (a key longer than the block is hashed by HMAC itself) and far above it
+        for n in [63usize, 64, 65, 100, 128, 129, 300] {
+            v.push(KeySpec::Short(long_pass(n, false)));
+        }
+        // long-term credentials whose `user:realm:password` string spans several hash blocks
+        v.push(KeySpec::Long { user: long_pass(70, false), realm: long_pass(65, false), pass: long_pass(129, false), sha256: false });
+        v.push(KeySpec::Long { user: long_pass(70, false), realm: long_pass(65, false), pass: long_pass(129, false), sha256: true });
         // realm and password that OpaqueString enforcement changes (U+00A0 -> U+0020)
         v.push(KeySpec::Long { user: "user", realm: "r\u{a0}m", pass: "p\u{a0}w", sha256: false });
         v.push(KeySpec::Long { user: "user", realm: "r\u{a0}m", pass: "p\u{a0}w", sha256: true });
@@ -351,6 +383,7 @@ pub fn near_keys(k: &KeySpec) -> Vec<KeySpec> {
                 "p" => "q",
                 "p\u{e9}ss" => "p\u{e9}st",
                 "x\u{a0}y" => "x\u{a0}z",
+                long if long.len() >= 63 => long_pass(long.len(), true),
                 _ => "other",
             };
             vec![KeySpec::Short(alt), KeySpec::Short("")]
@@ -361,7 +394,7 @@ pub fn near_keys(k: &KeySpec) -> Vec<KeySpec> {
         KeySpec::Long { user, realm, pass, sha256 } => {
             let u2: &'static str = if *user == "user" { "usex" } else { "user" };
             let r2: &'static str = if *realm == "example.org" { "example.orh" } else { "example.org" };
-            let p2: &'static str = if *pass == "TheMatrIX" { "TheMatrIY" } else { "TheMatrIX" };
+            let p2: &'static str = if *pass == "TheMatrIX" { "TheMatrIY" } else if pass.len() >= 63 { long_pass(pass.len(), true) } else { "TheMatrIX" };
             vec![
                 KeySpec::Long { user: u2, realm, pass, sha256: *sha256 },
                 KeySpec::Long { user, realm: r2, pass, sha256: *sha256 },
@@ -473,6 +506,201 @@ pub fn extra_sweep_msgs() -> Vec<LMsg> {
         both(L::UnknownAttributes((0..n as u16).map(|x| 0x7000 + x).collect()), &mut v);
         both(L::PasswordAlgorithms((0..n).map(|k| (1 + (k % 2) as u16, (0..k as u8).collect::<Vec<u8>>())).collect()), &mut v);
         both(L::PasswordAlgorithm(2, (0..(n as u8) * 3).collect()), &mut v);
+    }
+    v
+}
+
+/// One short representative value per attribute kind (distinct padding residues among the variable-length ones).
+pub fn kind_reps() -> Vec<L> {
+    let mut seen = std::collections::BTreeSet::new();
+    let mut v = vec![];
+    for a in body_menu(false) {
+        if crate::refs::codec::value_bytes(&a, &[0; 12]).len() <= 40 && seen.insert(a.kind()) {
+            v.push(a);
+        }
+    }
+    v
+}
+
+/// "Deep" messages shared by the codec properties: what the singles / pairs / triples cannot reach.
+///  * offsets: every reduced-menu value placed at body offsets around 256 / 512 / 1024 / 2048 / 4096 (thorough: up to
+///    32768) behind one long filler, and behind a run of 8-byte attributes (so its index is large as well), followed
+///    by one more attribute;
+///  * repeats: N copies of one attribute, N in 3..=1000, for 10 kinds;
+///  * rotations: one value of every kind in a single message, every rotation and the reversed order;
+///  * quads: every 4-sequence over 9 kinds with different padding residues.
+pub fn deep_msgs(thorough: bool) -> Vec<LMsg> {
+    let mut v = vec![];
+    let tid = [0x6du8; 12];
+    let reduced = body_menu(false);
+    let reps = kind_reps();
+    // offsets
+    let mut offs = std::collections::BTreeSet::new();
+    let ts: &[usize] = if thorough { &[256, 512, 1024, 2048, 4096, 8192, 16384, 32768] } else { &[256, 1024, 4096] };
+    for t in ts {
+        for d in [-24i64, -20, -4, 0, 4] {
+            offs.insert((*t as i64 + d) as usize);
+        }
+    }
+    for f in &offs {
+        for (ix, a) in reduced.iter().enumerate() {
+            // one long filler (DATA or PADDING alternately) whose TLV occupies exactly f bytes
+            let filler = if ix % 2 == 0 { L::Data((0..f - 4).map(|x| (x * 31 + 7) as u8).collect()) } else { L::Padding(rep('f', f - 4)) };
+            v.push(lmsg(3, 2, tid, vec![filler, a.clone(), L::Priority(7)]));
+            // a run of 8-byte attributes of the same total size (only up to 4096: the index is what matters)
+            if *f <= 4100 && f % 8 == 0 {
+                let mut attrs: Vec<L> = (0..f / 8).map(|k| if k % 2 == 0 { L::Priority(k as u32) } else { L::LifeTime(k as u32) }).collect();
+                attrs.push(a.clone());
+                attrs.push(L::UseCandidate);
+                v.push(lmsg(3, 2, tid, attrs));
+            }
+        }
+    }
+    // repeats
+    let rep_kinds: Vec<L> = vec![
+        L::Priority(0x0102_0304),
+        L::Software("abc".into()),
+        L::UserName("ab".into()),
+        L::XorPeerAddress(Addr::V4([192, 0, 2, 1], 32853)),
+        L::XorRelayedAddress(Addr::V6([0x20, 1, 0xd, 0xb8, 0x12, 0x34, 0x56, 0x78, 0, 0x11, 0x22, 0x33, 0x44, 0x55, 0x66, 0x77], 32853)),
+        L::Data(vec![1, 2, 3, 4, 5]),
+        L::PasswordAlgorithms(vec![(1, vec![]), (2, vec![9])]),
+        L::UnknownAttributes(vec![0x7001]),
+        L::ErrorCode(438, "stale".into()),
+        L::DontFragment,
+    ];
+    let ns: &[usize] = if thorough { &[3, 4, 5, 7, 8, 9, 15, 16, 17, 31, 32, 33, 63, 64, 65, 127, 128, 129, 255, 256, 257, 1000] } else { &[3, 4, 5, 8, 9, 16, 17, 32, 33, 64, 65, 128, 129, 256, 257] };
+    for a in &rep_kinds {
+        for n in ns {
+            v.push(lmsg(1, 3, tid, vec![a.clone(); *n]));
+        }
+    }
+    // rotations
+    for r in 0..reps.len() {
+        let mut attrs = reps.clone();
+        attrs.rotate_left(r);
+        v.push(lmsg(1, 3, tid, attrs.clone()));
+        attrs.reverse();
+        v.push(lmsg(1, 3, tid, attrs));
+    }
+    // quads
+    let q: Vec<L> = vec![
+        L::Software("a".into()),
+        L::UserName("ab".into()),
+        L::Realm("abc".into()),
+        L::Priority(5),
+        L::XorMappedAddress(Addr::V6([0xfe, 0x80, 0, 0, 0, 0, 0, 0, 0, 0, 0, 0, 0, 0, 0, 1], 443)),
+        L::ErrorCode(401, "no".into()),
+        L::PasswordAlgorithms(vec![(2, vec![1, 2, 3])]),
+        L::Data(vec![1, 2, 3, 4, 5]),
+        L::EvenPort(true),
+    ];
+    for a in &q {
+        for b in &q {
+            for c in &q {
+                for d in &q {
+                    v.push(lmsg(2, 2, tid, vec![a.clone(), b.clone(), c.clone(), d.clone()]));
+                }
+            }
+        }
+    }
+    v
+}
+
+
+/// Addresses whose XOR-ed wire form (under transaction id `tid`) is a special IPv6 / IPv4 form: all zeros, ::1,
+/// IPv4-mapped, all ones. For the XOR-* attributes the special value appears on the wire, not in the API.
+pub fn xor_special_addrs(tid: &[u8; 12]) -> Vec<Addr> {
+    let mut mask = [0u8; 16];
+    mask[..4].copy_from_slice(&[0x21, 0x12, 0xA4, 0x42]);
+    mask[4..].copy_from_slice(tid);
+    let mut v = vec![];
+    for wire in [
+        [0u8; 16],
+        [0, 0, 0, 0, 0, 0, 0, 0, 0, 0, 0, 0, 0, 0, 0, 1],
+        [0, 0, 0, 0, 0, 0, 0, 0, 0, 0, 0xff, 0xff, 192, 0, 2, 1],
+        [0xff; 16],
+    ] {
+        let mut a = [0u8; 16];
+        for i in 0..16 {
+            a[i] = wire[i] ^ mask[i];
+        }
+        v.push(Addr::V6(a, 0x2112 ^ 0x8055));
+        v.push(Addr::V4([wire[12] ^ mask[0], wire[13] ^ mask[1], wire[14] ^ mask[2], wire[15] ^ mask[3]], 0x2112));
+    }
+    v
+}
+
+/// Wire size of an attribute list (TLV headers, values, padding).
+pub fn body_size(attrs: &[L], tid: &[u8; 12]) -> usize {
+    attrs
+        .iter()
+        .map(|a| {
+            let v = match a {
+                L::Mi => 20,
+                L::Sha => 32,
+                L::Fp => 4,
+                o => crate::refs::codec::value_bytes(o, tid).len(),
+            };
+            4 + v + (4 - v % 4) % 4
+        })
+        .sum()
+}
+
+/// Attributes occupying exactly `f` body bytes (f a multiple of 4; 0 gives none). `many`: 512-byte SOFTWARE attributes
+/// (the attribute COUNT grows with f) instead of one DATA blob.
+pub fn filler(f: usize, many: bool) -> Vec<L> {
+    assert!(f % 4 == 0);
+    if f == 0 {
+        return vec![];
+    }
+    if !many {
+        return vec![L::Data((0..f - 4).map(|x| (x * 29 + 11) as u8).collect())];
+    }
+    let mut v = vec![L::Software(rep('x', 508)); f / 512];
+    if f % 512 != 0 {
+        v.push(L::Software(rep('y', f % 512 - 4)));
+    }
+    v
+}
+
+/// Body offsets (multiples of 4) at which the offset families place their subject attribute: every offset up to 4200
+/// (thorough 16,400), the neighbourhood of every multiple of 4096 (thorough 1024), and every offset from 65,300 to the
+/// largest legal one, so that message offsets cross 65,536 while the body still fits the 16-bit length field.
+pub fn offset_points(thorough: bool) -> Vec<usize> {
+    let mut s = std::collections::BTreeSet::new();
+    let dense = if thorough { 16_400 } else { 4_200 };
+    for f in (0..=dense).step_by(4) {
+        s.insert(f);
+    }
+    let step = if thorough { 1024 } else { 4096 };
+    let mut t = step;
+    while t < 65_300 {
+        for d in [-24i64, -20, -8, -4, 0, 4] {
+            s.insert((t as i64 + d) as usize);
+        }
+        t += step;
+    }
+    for f in (65_300..=65_532).step_by(4) {
+        s.insert(f);
+    }
+    s.into_iter().collect()
+}
+
+/// [filler up to offset f][each of xs][tail], for every offset point, dropped when the body would exceed 65,532 bytes.
+pub fn offset_msgs(thorough: bool, xs: &[Vec<L>], tails: &[Vec<L>], tid: [u8; 12]) -> Vec<LMsg> {
+    let mut v = vec![];
+    for (ix, f) in offset_points(thorough).into_iter().enumerate() {
+        for x in xs {
+            for t in tails {
+                let mut attrs = filler(f, ix % 2 == 1);
+                attrs.extend(x.iter().cloned());
+                attrs.extend(t.iter().cloned());
+                if body_size(&attrs, &tid) <= 65_532 {
+                    v.push(lmsg(1, 2, tid, attrs));
+                }
+            }
+        }
     }
     v
 }
